@@ -5,6 +5,7 @@ mod pcorr;
 mod c01;
 mod c03;
 mod c04;
+mod c06;
 mod c07;
 mod c14;
 mod c20;
@@ -43,6 +44,7 @@ fn main() {
         "C01" => c01::run(&o),
         "C03" => c03::run(&o),
         "C04" => c04::run(&o),
+        "C06" => c06::run(&o),
         "C07" => c07::run(&o),
         "C14" => c14::run(&o),
         "C20" => c20::run(&o),
